@@ -26,8 +26,18 @@ func c05Space(tier string) *qt.Space {
 const c05RandomBatchesQuick = 8
 const c05RandomBatchesThorough = 64
 
+var c05Extra = qt.NewSpace(qt.ExtraLeaves())
+
+// c05ExtraSize: the quick tier enumerates the rarer spellings up to depth 1, the thorough tier up to depth 2.
+func c05ExtraSize(tier string) int {
+	if tier == "thorough" {
+		return c05Extra.Size()
+	}
+	return len(c05Extra.D1)
+}
+
 func (c05) Batches(tier string, seed int64) int {
-	n := nBatches(c05Space(tier).Size())
+	n := nBatches(c05Space(tier).Size()) + nBatches(c05ExtraSize(tier))
 	if tier == "thorough" {
 		return n + c05RandomBatchesThorough + 1
 	}
@@ -54,8 +64,15 @@ func (p c05) RunBatch(ctx *core.Ctx, batch int) {
 	mon.Install()
 	defer monFlush(ctx)
 	sp := c05Space(ctx.Tier)
-	nEnum := nBatches(sp.Size())
+	nMain := nBatches(sp.Size())
+	nEnum := nMain + nBatches(c05ExtraSize(ctx.Tier))
 	switch {
+	case batch >= nMain && batch < nEnum:
+		lo, hi := batchRange(c05ExtraSize(ctx.Tier), batch-nMain)
+		r := ctx.Rand("styles")
+		for i := lo; i < hi; i++ {
+			p.checkTree(ctx, c05Extra.At(i), r, true)
+		}
 	case batch < nEnum:
 		lo, hi := batchRange(sp.Size(), batch)
 		r := ctx.Rand("styles")
@@ -111,7 +128,7 @@ func (p c05) RunBatch(ctx *core.Ctx, batch int) {
 	default:
 		// random deeper trees
 		r := ctx.Rand("deep")
-		leaves := append(qt.FullLeaves(), qt.HostileLeaves(r, gen.ValueDict(r, 80), 24, true)...)
+		leaves := append(append(qt.FullLeaves(), qt.ExtraLeaves()...), qt.HostileLeaves(r, gen.ValueDict(r, 80), 24, true)...)
 		for i := 0; i < 1500; i++ {
 			t := qt.RandomTree(r, leaves, 2+r.Intn(5))
 			if t.Size() > 40 {
